@@ -24,5 +24,7 @@ theorem body_wrapExecCommand : Tea.Gen.fact_body_wrapExecCommand = Tea.Doc.fact_
 theorem body_osExecCommand_SetStdin : Tea.Gen.fact_body_osExecCommand_SetStdin = Tea.Doc.fact_body_osExecCommand_SetStdin := rfl
 theorem body_osExecCommand_SetStdout : Tea.Gen.fact_body_osExecCommand_SetStdout = Tea.Doc.fact_body_osExecCommand_SetStdout := rfl
 theorem body_osExecCommand_SetStderr : Tea.Gen.fact_body_osExecCommand_SetStderr = Tea.Doc.fact_body_osExecCommand_SetStderr := rfl
+theorem body_Program_suspend : Tea.Gen.fact_body_Program_suspend = Tea.Doc.fact_body_Program_suspend := rfl
+theorem el_case_SuspendMsg : Tea.Gen.fact_el_case_SuspendMsg = Tea.Doc.fact_el_case_SuspendMsg := rfl
 
 end Tea.Props.Bridge.C17
